@@ -11,6 +11,7 @@ import (
 	"flag"
 	"fmt"
 	"os"
+	"runtime/debug"
 	"strings"
 )
 
@@ -110,6 +111,7 @@ func runAll() {
 func safeHandle(c core, ws []string) (res string) {
 	defer func() {
 		if r := recover(); r != nil {
+			fmt.Fprintf(os.Stderr, "harness: panic in %v: %v\n%s\n", ws, r, debug.Stack())
 			res = "panic"
 		}
 	}()
